@@ -89,6 +89,12 @@ CHECKS.update({
          'A: calcRangeHeight for all begin,end in 0..28 (thorough 0..40) x fetch 1..8 must partition [begin,end] in ascending ranges. B: real SyncCFTBlocks for every pattern of <=2 injected fetch failures and every sequence of (seamed) random peer picks must emit each height once, ascending. C: the real etcdraft.Node apply path (entriesToApply, publishEntries, mint, reportState, persisted applied index, real mempool) under all interleavings of {raft hands over the next 1/2/all entries or re-delivers from index 1, executor reports, crash+restart at the executor\'s durable height} for every committed log of length 4 (thorough 5) over entry heights {empty,2,3,4}: delivered heights consecutive, an executed height never delivered again, no unexecuted entry skipped.',
          'PARTIAL: the etcd raft library (which entries are committed, in which order, on which replica) is trusted; leader election, message loss/duplication/reordering between replicas, snapshots/compaction and the solo orderer\'s goroutine pipeline are not explored (building the event-by-event 3-replica harness was not completed); batch contents/sequence numbers on the proposing side are covered by C18', '5 C20'),
 })
+CHECKS.update({
+ 'C16': ('govmc', 'model_checking',
+         'explicit-state BFS (validated-by-construction abstraction key) over governance operations, IBTP probes and restarts on the real executor against declared lifecycle relations and a gating predicate on stored statuses',
+         'All histories up to depth 6 (thorough 7) of submit freeze/activate/logout on appchain A, service A:s1 and destination service B:s2, conclusion of the open proposal by approval or rejection, requests A:s1->B:s2 and B:s2->A:s1 before/during/after each transition, and node restarts; every observed status change must be an edge of the declared state machine for that trigger or a cascade of the owning appchain, forbidden is absorbing, refused operations change nothing, approved appchain freeze/logout leaves no service usable, and each request is accepted / begin-failed (status + source notified) / rejected without record according to the stored availability of source and destination.',
+         'declared FSMs and availability sets transcribed into the harness; abstraction merges histories differing only in heights/nonces/ids/counters; rules, roles, nodes are covered by C03/C15/C17', '5 C16'),
+})
 REASON_WIP = 'check not built yet (work in progress; see DESIGN.md section 10)'
 def main():
     checks = []
@@ -123,7 +129,7 @@ def main():
             {'name': 'crashmc', 'path': 'harness/checks/c11.go', 'serves_properties': ['C11'], 'kind_free_text': 'crash-state enumeration from recorded writes'},
             {'name': 'poolmc', 'path': 'harness/checks/pool.go', 'serves_properties': ['C18', 'C19'], 'kind_free_text': 'explicit-state BFS over the real mempool'},
             {'name': 'probemc', 'path': 'harness/checks/probe.go', 'serves_properties': ['C03', 'C07', 'C08', 'C17'], 'kind_free_text': 'exhaustive probe product with differential oracle, sharded over worker subprocesses'},
-            {'name': 'govmc', 'path': 'harness/checks/c15.go', 'serves_properties': ['C15'], 'kind_free_text': 'explicit-state BFS over governance histories'},
+            {'name': 'govmc', 'path': 'harness/checks/c15.go', 'serves_properties': ['C15', 'C16'], 'kind_free_text': 'explicit-state BFS over governance histories'},
             {'name': 'ordermc', 'path': 'harness/checks/c20.go', 'serves_properties': ['C20'], 'kind_free_text': 'range enumeration + choice-point DFS over the real syncer + BFS over the real raft apply path'},
             {'name': 'enum', 'path': 'harness/checks/c10.go', 'serves_properties': ['C10'], 'kind_free_text': 'bounded-exhaustive enumeration'},
         ],
